@@ -179,3 +179,109 @@ def check_c03(chk, prog, sim):
                                     ok = False
         if ok:
             chk.discharge(key)
+
+
+# ------------------------------------------------------------------------------------------------
+# devices: explicit self values with inline terminal cells
+
+class DeviceHeap:
+    """Device value whose RefCell<Terminal> fields are concrete cells; optional partner cells per terminal."""
+    def __init__(self, sim, prog, fn, gargs, st, presets=None):
+        self.sim, self.prog, self.st = sim, prog, st
+        self.dev_ty = subst(fn["sig_inputs"][0], gargs)["ty"]
+        self.tty = find_ty(self.dev_ty_fields_ty(), "Terminal")
+        self.h = Heap(sim, st, self.tty)
+        self.terms = []       # (path-steps to the cell inside the device value, tag)
+        self.partners = {}    # tag -> partner cell obj
+        self.presets = presets or {}
+
+    def dev_ty_fields_ty(self):
+        fs = self.sim.adt_fields(self.dev_ty)
+        for n, t in fs:
+            r = find_ty(t, "Terminal")
+            if r:
+                return t
+        raise AnchorMissing("terminal field of device")
+
+    def build(self, config):
+        """config: list per terminal of dict(state=bool, cmd=bool, partner=None|dict(state=bool, cmd=bool)).
+        Terminals are taken in declaration order of the RefCell<Terminal> fields (arrays expand)."""
+        sim, st = self.sim, self.st
+        fs = sim.adt_fields(self.dev_ty)
+        vals = []
+        ti = 0
+        for n, t in fs:
+            if is_adt(t, "RefCell") and find_ty(t, "Terminal"):
+                vals.append(self._cell(config[ti], ti))
+                self.terms.append(((("f", len(vals) - 1),), str(ti)))
+                ti += 1
+            elif t.get("k") == "array" and is_adt(t["ty"], "RefCell"):
+                from program import const_val
+                k = const_val(t["len"])
+                elems = []
+                for j in range(k):
+                    elems.append(self._cell(config[ti], ti))
+                    self.terms.append(((("f", len(vals)), ("i", j)), str(ti)))
+                    ti += 1
+                vals.append(Array(elems, t))
+            elif n in self.presets:
+                vals.append(self.presets[n])
+            else:
+                vals.append(Sym("self." + n, t))
+        self.oid = st.new_obj("dev", Struct(self.dev_ty, vals))
+        st.labels[self.oid] = "dev"
+        # link partners (need device object id for back references)
+        for (path, tag), conf in zip(self.terms, config):
+            if conf.get("partner") is not None:
+                pc = conf["partner"]
+                poid = st.new_obj("partner_" + tag, Opaque("RefCell", (self.h.terminal("p" + tag, pc.get("state", False), pc.get("cmd", False)), 0)))
+                st.labels[poid] = "partner_" + tag
+                self.partners[tag] = poid
+                # partner.other -> device terminal cell ; device terminal.other -> partner
+                cellptr = Ptr(self.oid, path)
+                pv = st.mem[poid]
+                t = pv.data[0]
+                f = list(t.fields)
+                oty = self.h.fields[self.h.i_other][1]
+                f[self.h.i_other] = sim.mk_enum(oty, "Some", [Ref(cellptr)])
+                st.mem[poid] = Opaque("RefCell", (Struct(self.tty, f), 0))
+                cell = sim.read(st, cellptr)
+                tv = cell.data[0]
+                f = list(tv.fields)
+                f[self.h.i_other] = sim.mk_enum(oty, "Some", [Ref(Ptr(poid))])
+                sim.write(st, cellptr, Opaque("RefCell", (Struct(self.tty, f), 0)))
+        return Ref(Ptr(self.oid), True)
+
+    def _cell(self, conf, i):
+        return Opaque("RefCell", (self.h.terminal(str(i), conf.get("state", False), conf.get("cmd", False)), 0))
+
+    def own_slot(self, st, i, which):
+        path, tag = self.terms[i]
+        cell = self.sim.final_value(st, self.sim.read(st, Ptr(self.oid, path)))
+        sd = cell.data[0].fields[self.h.i_state if which == "state" else self.h.i_cmd]
+        return sd.fields[1]
+
+    def cell_ptr(self, i):
+        return Ptr(self.oid, self.terms[i][0])
+
+    def borrow_states(self, st):
+        return [self.sim.read(st, Ptr(self.oid, p)).data[1] for p, _ in self.terms]
+
+
+def read_after(sim, prog, leaf, cellptr, which):
+    """Run <Terminal as Getter<which>>::get on a cell of the leaf's post-state; returns leaves."""
+    fn = terminal_getters(prog)[which]
+    st = leaf.state.copy()
+    st.frames = []
+    st.effects = []
+    return sim.run(fn, sim.identity_gargs(fn), [Ref(cellptr.ext(("inner",)), False)], st)
+
+
+def opt_datum(v):
+    """Option<Datum<X>> final value -> None | (time_i64, payload)."""
+    if isinstance(v, Enum) and v.vname == "Some":
+        d = v.fields[0]
+        t = d.fields[0]
+        t = t.fields[0] if isinstance(t, Struct) and len(t.fields) == 1 else t
+        return (t, d.fields[1])
+    return None
